@@ -43,6 +43,7 @@ type Scenario struct {
 	Program string             `json:"program"`
 	Plan    []faultsys.Trigger `json:"plan"`
 	Trace   bool               `json:"trace,omitempty"` // fault-free run that reports the RPC counts
+	Par     int                `json:"par,omitempty"`   // session parallelism (default 4 = two machines of 2 procs; 2 = a single machine)
 }
 
 func (s Scenario) String() string {
@@ -55,9 +56,16 @@ func (s Scenario) String() string {
 		if t.HoldMs > 0 {
 			d += fmt.Sprintf("+hold%dms", t.HoldMs)
 		}
+		if t.Phase == "mid" {
+			d += fmt.Sprintf("@%dB", t.CutAfter)
+		}
 		p = append(p, fmt.Sprintf("%s#%d/%s%s/%s", t.Method, t.N, t.Phase, d, t.Victim))
 	}
-	return s.Program + "[" + strings.Join(p, ",") + "]"
+	name := s.Program
+	if s.Par != 0 {
+		name += fmt.Sprintf("@par%d", s.Par)
+	}
+	return name + "[" + strings.Join(p, ",") + "]"
 }
 
 // Outcome is what the child observed.
@@ -122,6 +130,10 @@ func programOf(name string) (base, main *progen.Spec) {
 		main = chain(source(4, 50, 9), progen.Node{Op: "reshard", N: 2})
 	case "big-map":
 		main = chain(source(2, 400, 50), progen.Node{Op: "map", Fn: identity})
+	case "big-reduce":
+		// every key once per shard: the shuffle carries thousands of rows per partition (several reads of a
+		// merge buffer, tens of kilobytes per stream)
+		main = chain(source(2, 3000, 100000), progen.Node{Op: "reduce", Fn: &progen.Fn{}})
 	case "reused-result":
 		base = chain(source(3, 60, 7), progen.Node{Op: "reduce", Fn: &progen.Fn{}})
 		main = mk(progen.Node{Op: "arg", Arg: 0}, progen.Node{Op: "map", In: []int{0}, Fn: &progen.Fn{Exprs: []progen.Expr{{K: "hash", T: progen.TInt, M: 3}, {K: "col", I: 1}}}}, progen.Node{Op: "reduce", In: []int{1}, Fn: &progen.Fn{}})
@@ -144,7 +156,7 @@ func programOf(name string) (base, main *progen.Spec) {
 	return
 }
 
-var suite = []string{"map-only", "reduce", "fold", "cogroup", "two-stage", "reshuffle-root", "repartition-flatmap", "reshard", "big-map", "reused-result", "reused-through-shuffle"}
+var suite = []string{"map-only", "reduce", "fold", "cogroup", "two-stage", "reshuffle-root", "repartition-flatmap", "reshard", "big-map", "big-reduce", "reused-result", "reused-through-shuffle"}
 
 const runTimeout = 150 * time.Second
 
@@ -194,7 +206,11 @@ func runScenario(sc Scenario) (out Outcome) {
 	sys.KeepalivePeriod = 100 * time.Millisecond
 	sys.KeepaliveTimeout = time.Second
 	sys.KeepaliveRpcTimeout = 500 * time.Millisecond
-	sess := exec.Start(exec.Bigmachine(sys), exec.Parallelism(4))
+	par := sc.Par
+	if par == 0 {
+		par = 4
+	}
+	sess := exec.Start(exec.Bigmachine(sys), exec.Parallelism(par))
 	ctx := context.Background()
 	base, main := programOf(sc.Program)
 	var args []interface{}
@@ -503,7 +519,7 @@ func report(t *testing.T, rec *vt.Rec, test string, seen map[string]bool) func(i
 var killMethods = []string{"Worker.Compile", "Worker.Run", "Worker.Stat", "Worker.Read", "Supervisor.Keepalive", "Worker.TaskStats", "Worker.FuncLocations"}
 
 // plansFor enumerates every single-kill plan over the traced RPC counts.
-func plansFor(program string, counts map[string]int) []Scenario {
+func plansFor(program string, par int, counts map[string]int) []Scenario {
 	var out []Scenario
 	for _, m := range killMethods {
 		n := counts[m]
@@ -518,14 +534,23 @@ func plansFor(program string, counts map[string]int) []Scenario {
 			n = limit
 		}
 		for k := 0; k < n; k++ {
+			if m == "Worker.Read" && k < 12 {
+				// the machine serving a read dies while the reply streams
+				for _, cut := range []int{100, 3000, 20000} {
+					out = append(out, Scenario{Program: program, Par: par, Plan: []faultsys.Trigger{{Method: m, N: k, Phase: "mid", Victim: "target", CutAfter: cut}}})
+				}
+			}
 			for _, phase := range []string{"before", "after"} {
 				for _, victim := range []string{"target", "other"} {
-					out = append(out, Scenario{Program: program, Plan: []faultsys.Trigger{{Method: m, N: k, Phase: phase, Victim: victim}}})
+					if par == 2 && victim == "other" {
+						continue // a single machine
+					}
+					out = append(out, Scenario{Program: program, Par: par, Plan: []faultsys.Trigger{{Method: m, N: k, Phase: phase, Victim: victim}}})
 					if phase == "after" && victim == "target" {
-						out = append(out, Scenario{Program: program, Plan: []faultsys.Trigger{{Method: m, N: k, Phase: phase, Victim: victim, Drop: true}}})
+						out = append(out, Scenario{Program: program, Par: par, Plan: []faultsys.Trigger{{Method: m, N: k, Phase: phase, Victim: victim, Drop: true}}})
 						if m == "Worker.Run" || m == "Worker.Compile" || m == "Worker.Read" && k < 6 {
 							// the reply reaches the driver only after it has learnt of the loss
-							out = append(out, Scenario{Program: program, Plan: []faultsys.Trigger{{Method: m, N: k, Phase: phase, Victim: victim, HoldMs: 1800}}})
+							out = append(out, Scenario{Program: program, Par: par, Plan: []faultsys.Trigger{{Method: m, N: k, Phase: phase, Victim: victim, HoldMs: 1800}}})
 						}
 					}
 				}
@@ -542,7 +567,7 @@ func TestVerifC02SingleKill(t *testing.T) {
 		t.Skip()
 	}
 	rec := vt.New("C02", "single-kill-enumeration",
-		"fault enumeration: for each program of the fault suite (map-only, reduce, fold, cogroup, two-stage shuffle, reshuffle root, repartition+flatmap, reshard, multi-batch map, a Func over a reused Result, a reused Result fed directly into a shuffle) a traced failure-free run on the bigmachine test system (no machine combiners) gives the number of RPCs per method; then EVERY single-kill plan (method in {Worker.Compile, Worker.Run, Worker.Stat, Worker.Read incl. the reads of the final scan, Supervisor.Keepalive, Worker.TaskStats, Worker.FuncLocations} x occurrence (capped: 6, Worker.Read 40) x {before the call, after its reply, after its reply with the reply dropped, after its reply with the reply delivered 1.8 s later i.e. after the driver has learnt of the loss (Worker.Run/Compile/Read)} x victim {the call's target, another machine}) is executed in a disposable child process (quick tier: a seeded sample of the plans); oracle: Run and scan either report an error or deliver exactly the reference rows, never block (150 s), and after the plan is disabled (a) if the first Run had succeeded, scanning its Result again delivers the reference rows within 3 attempts and (b) the same Func succeeds with the reference rows within 3 attempts; non-trivial = the kill fired; distinct by (program, plan)")
+		"fault enumeration: for each program of the fault suite (map-only, reduce, fold, cogroup, two-stage shuffle, reshuffle root, repartition+flatmap, reshard, multi-batch map, a Func over a reused Result, a reused Result fed directly into a shuffle, a Reduce whose shuffle streams carry thousands of rows; map-only and Reduce also on a cluster of a single machine) a traced failure-free run on the bigmachine test system (no machine combiners) gives the number of RPCs per method; then EVERY single-kill plan (method in {Worker.Compile, Worker.Run, Worker.Stat, Worker.Read incl. the reads of the final scan, Supervisor.Keepalive, Worker.TaskStats, Worker.FuncLocations} x occurrence (capped: 6, Worker.Read 40) x {before the call, after its reply, after its reply with the reply dropped, after its reply with the reply delivered 1.8 s later i.e. after the driver has learnt of the loss (Worker.Run/Compile/Read), and for Worker.Read while the reply streams (after 100 / 3000 / 20000 bytes)} x victim {the call's target, another machine}) is executed in a disposable child process (quick tier: a seeded sample of the plans); oracle: Run and scan either report an error or deliver exactly the reference rows, never block (150 s), and after the plan is disabled (a) if the first Run had succeeded, scanning its Result again delivers the reference rows within 3 attempts and (b) the same Func succeeds with the reference rows within 3 attempts; non-trivial = the kill fired; distinct by (program, plan)")
 	seen := map[string]bool{}
 	docs, only := vt.Replays(tSingle)
 	if len(docs) > 0 {
@@ -562,17 +587,27 @@ func TestVerifC02SingleKill(t *testing.T) {
 		return
 	}
 	// trace
-	var traces []Scenario
-	for _, p := range suite {
-		traces = append(traces, Scenario{Program: p, Trace: true})
+	type variant struct {
+		program string
+		par     int
 	}
-	counts := map[string]map[string]int{}
+	var variants []variant
+	for _, p := range suite {
+		variants = append(variants, variant{p, 0})
+	}
+	// a cluster of a single machine: every loss takes the whole cluster down
+	variants = append(variants, variant{"map-only", 2}, variant{"reduce", 2})
+	var traces []Scenario
+	for _, v := range variants {
+		traces = append(traces, Scenario{Program: v.program, Par: v.par, Trace: true})
+	}
+	counts := map[variant]map[string]int{}
 	rep := report(t, rec, tSingle, seen)
 	if err := runScenarios(traces, func(i int, sc Scenario, out *Outcome, crashed bool, log string) {
 		if v, _ := judge(sc, out, crashed, log); v != "" || vt.Shard() == 0 {
 			rep(i, sc, out, crashed, log)
 		}
-		counts[sc.Program] = out.Counts
+		counts[variant{sc.Program, sc.Par}] = out.Counts
 	}); err != nil {
 		t.Fatalf("harness: %v", err)
 	}
@@ -580,8 +615,8 @@ func TestVerifC02SingleKill(t *testing.T) {
 		return
 	}
 	var all []Scenario
-	for _, p := range suite {
-		all = append(all, plansFor(p, counts[p])...)
+	for _, v := range variants {
+		all = append(all, plansFor(v.program, v.par, counts[v])...)
 	}
 	if vt.Shard() == 0 {
 		rec.Count("plans-enumerable", len(all))
